@@ -422,7 +422,7 @@ func pushCustomEmptyConfig(ctx context.Context, pusher content.Pusher, mediaType
 func ensureAnnotationCreated(annotations map[string]string, annotationCreatedKey string) (map[string]string, error) {
 	if createdTime, ok := annotations[annotationCreatedKey]; ok {
 		// if annotationCreatedKey is provided, validate its format
-		if _, err := time.Parse(time.RFC3339, createdTime); err != nil {
+		if err := validateRFC3339(createdTime); err != nil {
 			return nil, fmt.Errorf("%w: %v", ErrInvalidDateTimeFormat, err)
 		}
 		return annotations, nil
@@ -437,6 +437,32 @@ func ensureAnnotationCreated(annotations map[string]string, annotationCreatedKey
 	now := time.Now().UTC()
 	copied[annotationCreatedKey] = now.Format(time.RFC3339)
 	return copied, nil
+}
+
+// validateRFC3339 validates that value is in RFC 3339 format.
+func validateRFC3339(value string) error {
+	if _, err := time.Parse(time.RFC3339, value); err != nil {
+		return err
+	}
+	// time.Parse is more lenient than RFC 3339: it also accepts a
+	// single-digit hour, a comma as the sub-second separator and out-of-range
+	// time zone offsets. Check those cases explicitly.
+	// See https://go.dev/issue/54580.
+	num2 := func(s string) int { return 10*int(s[0]-'0') + int(s[1]-'0') }
+	switch {
+	case value[len("2006-01-02T")+1] == ':':
+		return errors.New("hour must be two digits")
+	case value[len("2006-01-02T15:04:05")] == ',':
+		return errors.New("sub-second separator must be a period")
+	case value[len(value)-1] != 'Z':
+		if num2(value[len(value)-len("07:00"):]) >= 24 {
+			return errors.New("time zone offset hour out of range")
+		}
+		if num2(value[len(value)-len("00"):]) >= 60 {
+			return errors.New("time zone offset minute out of range")
+		}
+	}
+	return nil
 }
 
 // validateMediaType validates the format of mediaType.
